@@ -4,14 +4,16 @@
 // Library entry points executed: sm2ec.P256() (Add, Double, ScalarMult, ScalarBaseMult,
 // CombinedMult, Inverse, IsOnCurve, Unmarshal, UnmarshalCompressed, Params), the point type
 // behind it through verifhook (SetBytes, Bytes, BytesCompressed, BytesX, Add, Double, ScalarMult,
-// ScalarBaseMult, Set, Select), P256OrdInverse / P256OrdMul / ImplicitSig, ecdh.P256()
+// ScalarBaseMult, Set, Select, SetGenerator), P256OrdInverse / P256OrdMul / ImplicitSig, ecdh.P256()
 // (NewPrivateKey, NewPublicKey, ECDH) and sm2.NewPrivateKey / NewPrivateKeyFromInt / NewPublicKey.
 //
 // Oracle: verifh/ref/ec (affine chord-and-tangent arithmetic on math/big, strict SEC 1 decoder)
 // and math/big for the scalar field. ref.go adds only evaluation-order helpers on top of
 // ec.Add / ec.Double (doubling tables, remembered partial sums) that are cross-checked against
 // ec.Mul in every child before the first case, and the bounded deterministic searches for points
-// with extreme or sparse coordinates.
+// with extreme or sparse coordinates. polypts.go constructs points whose INTERMEDIATE values in the
+// decoders' field computations are structured (cubic root finding in F_p; every point is re-validated
+// against its target), pairs.go pairs of unrelated points with equal or adjacent coordinates.
 //
 // Workloads:
 //
@@ -25,4 +27,6 @@
 //	c05.decode      accept-set monitor for SetBytes, Unmarshal, UnmarshalCompressed (also through
 //	                crypto/elliptic), sm2.NewPublicKey, ecdh NewPublicKey, IsOnCurve
 //	c05.keys        private-key constructors, derived public keys, ECDH x-coordinate
+//	c05.reuse       histories over ONE set of argument objects (big.Int pairs, scalar and encoding
+//	                slices) overwritten in place between calls, for every entry point (reuse.go)
 package c05
